@@ -1,12 +1,24 @@
 import P2sh.Core.Correct
 /-!
-# Core programs: global `let`, expression statements, blocks and `while` loops
+# Core programs: global `let`, expression statements, blocks, `while` / `loop`, `break` /
+`continue` (plain and labelled), `if` with statement blocks in statement position
 
 `compileP_correct`: a sequence of statements runs from any stack back to **the same stack**
 (C07: statements are balanced, loops run in constant stack) with the globals the reference
-evaluation gives (C02, C05).  The reference evaluation takes a fuel argument that bounds the
-depth of the evaluation (loop iterations included); the theorem holds for every fuel, i.e.
-for every terminating run of every program of the fragment.
+evaluation gives (C02, C05).  The reference evaluation returns, with the globals, the *flow*
+in which the statement ends — normally, or by a `break` / `continue` addressed to an enclosing
+loop; a loop consumes the flows addressed to it.  `sound_all`: when the flow is normal the
+machine is at the statement's end; when it is `break l` / `continue l` the machine is at the
+end / the beginning of the loop the compiler's loop stack resolves `l` to — **always with the
+stack the statement started with**.
+
+`break` / `continue` occur in statement position only in this fragment (directly in a loop
+body, in a block, or in a branch of a statement-level `if`); a jump out of the middle of an
+expression with pending operands — the known finding K1 — cannot be written in it.
+
+The reference evaluation takes a fuel argument that bounds the depth of the evaluation (loop
+iterations included); the theorems hold for every fuel, i.e. for every terminating run of
+every program of the fragment.
 -/
 namespace P2sh.Core
 open P2sh
@@ -15,37 +27,90 @@ inductive CStmt where
   | letG (i : Nat) (e : CExpr)                  -- `let x = e;` at top level: DefineGlobal i
   | expr (e : CExpr)                            -- `e;` : the value is popped
   | block (body : List CStmt)                   -- `{ … }`
-  | whileS (c : CExpr) (body : List CStmt)      -- `while c { … }` (no break/continue inside)
+  | whileS (label : Option String) (c : CExpr) (body : List CStmt)      -- `[l:] while c { … }`
+  | loopS (label : Option String) (body : List CStmt)                   -- `[l:] loop { … }`
+  | breakS (label : Option String)              -- `break [l];`
+  | continueS (label : Option String)           -- `continue [l];`
+  /-- `if c { thn } else { els }` as an expression statement whose branches are statement
+  blocks (a missing `else` is the empty block: both emit `Null`; `else if …` is the block
+  holding that `if` as its only statement: both emit the same code) -/
+  | ifS (c : CExpr) (thn els : List CStmt)
 deriving Repr
 
+/-- an expression statement: its code ends with the `Pop` of the value -/
+def CStmt.isExprStmt : CStmt → Bool
+  | .expr _ | .ifS .. => true
+  | _ => false
+
+/-- how a statement ends -/
+inductive Flow where
+  | normal
+  | brk (l : Option String)
+  | cont (l : Option String)
+deriving Repr, DecidableEq
+
+/-- a `break`/`continue` with label `l` (none: plain) is addressed to a loop labelled `lbl` -/
+def targets (lbl : Option String) : Option String → Bool
+  | none => true
+  | some l => lbl == some l
+
+inductive LoopAct where | again | exit | propagate
+deriving Repr, DecidableEq
+
+/-- what a loop labelled `lbl` does with the flow its body ended in -/
+def loopAct (lbl : Option String) : Flow → LoopAct
+  | .normal => .again
+  | .cont l => if targets lbl l then .again else .propagate
+  | .brk l => if targets lbl l then .exit else .propagate
+
 mutual
-/-- reference evaluation of a statement: the globals afterwards (`none`: runtime error, or
-the fuel does not suffice) -/
-def evalS : Nat → List Val → CStmt → Option (List Val)
+/-- reference evaluation of a statement: the globals afterwards and the flow (`none`: runtime
+error, or the fuel does not suffice) -/
+def evalS : Nat → List Val → CStmt → Option (List Val × Flow)
   | 0, _, _ => none
   | fuel+1, g, .letG i e =>
     (match eval g e with
-     | some (v, g1) => if i < g1.length then some (g1.set i v) else none
+     | some (v, g1) => if i < g1.length then some (g1.set i v, .normal) else none
      | none => none)
   | _+1, g, .expr e =>
     (match eval g e with
-     | some (_, g1) => some g1
+     | some (_, g1) => some (g1, .normal)
      | none => none)
   | fuel+1, g, .block body => evalP fuel g body
-  | fuel+1, g, .whileS c body =>
+  | fuel+1, g, .whileS lbl c body =>
     (match eval g c with
      | some (vc, g1) =>
-       if vc.isFalsey then some g1
+       if vc.isFalsey then some (g1, .normal)
        else (match evalP fuel g1 body with
-         | some g2 => evalS fuel g2 (.whileS c body)
+         | some (g2, f) =>
+           (match loopAct lbl f with
+            | .again => evalS fuel g2 (.whileS lbl c body)
+            | .exit => some (g2, .normal)
+            | .propagate => some (g2, f))
          | none => none)
      | none => none)
-def evalP : Nat → List Val → List CStmt → Option (List Val)
+  | fuel+1, g, .loopS lbl body =>
+    (match evalP fuel g body with
+     | some (g2, f) =>
+       (match loopAct lbl f with
+        | .again => evalS fuel g2 (.loopS lbl body)
+        | .exit => some (g2, .normal)
+        | .propagate => some (g2, f))
+     | none => none)
+  | _+1, g, .breakS l => some (g, .brk l)
+  | _+1, g, .continueS l => some (g, .cont l)
+  | fuel+1, g, .ifS c thn els =>
+    (match eval g c with
+     | some (vc, g1) => if vc.isFalsey then evalP fuel g1 els else evalP fuel g1 thn
+     | none => none)
+/-- a statement list: the statements after a `break` / `continue` are skipped -/
+def evalP : Nat → List Val → List CStmt → Option (List Val × Flow)
   | 0, _, _ => none
-  | _+1, g, [] => some g
+  | _+1, g, [] => some (g, .normal)
   | fuel+1, g, s :: rest =>
     (match evalS fuel g s with
-     | some g1 => evalP fuel g1 rest
+     | some (g1, .normal) => evalP fuel g1 rest
+     | some (g1, f) => some (g1, f)
      | none => none)
 end
 
@@ -55,71 +120,439 @@ def constsS : CStmt → List Val
   | .letG _ e => consts e
   | .expr e => consts e
   | .block body => constsP body
-  | .whileS c body => consts c ++ constsP body
+  | .whileS _ c body => consts c ++ constsP body
+  | .loopS _ body => constsP body
+  | .breakS _ | .continueS _ => []
+  | .ifS c thn els => consts c ++ constsP thn ++ constsP els
 def constsP : List CStmt → List Val
   | [] => []
   | s :: rest => constsS s ++ constsP rest
 end
 
 mutual
-/-- what `compile_statement` emits at byte position `pos` with `k` constants in the pool -/
-def compileS (pos k : Nat) : CStmt → List Instr
+/-- code size of a statement (`bytes_compileS`) -/
+def sizeS : CStmt → Nat
+  | .letG _ e => sizeE e + 3
+  | .expr e => sizeE e + 1
+  | .block body => sizeP body
+  | .whileS _ c body => sizeE c + 3 + sizeP body + 3
+  | .loopS _ body => sizeP body + 3
+  | .breakS _ | .continueS _ => 3
+  | .ifS c thn els => sizeE c + 3 + sizeV thn + 3 + sizeV els + 1
+def sizeP : List CStmt → Nat
+  | [] => 0
+  | s :: rest => sizeS s + sizeP rest
+/-- code size of a branch of an `if` (a block in value position) -/
+def sizeV : List CStmt → Nat
+  | [] => 1
+  | s :: rest =>
+    match rest with
+    | [] => if s.isExprStmt then sizeS s - 1 else sizeS s + 1
+    | _ :: _ => sizeS s + sizeV rest
+end
+
+/-- an entry of the compiler's loop stack: the label, the position `continue` jumps to, the
+position `break` jumps to (in the real compiler the `break` jumps are patched when the loop is
+closed; here the end is known up front, by `sizeP`) -/
+structure LoopCtx where
+  label : Option String
+  begin : Nat
+  endp : Nat
+deriving Repr
+
+/-- the loop a `break l` / `continue l` is addressed to: the innermost one for a plain
+statement, the innermost one labelled `l` otherwise (`loop_stack.iter().rev()`) -/
+def lookupLoop : List LoopCtx → Option String → Option LoopCtx
+  | [], _ => none
+  | c :: cs, l => if targets c.label l then some c else lookupLoop cs l
+
+/-- outside every addressed loop the real compiler reports a compile error; `0xFFFF` is the
+placeholder operand it would have left -/
+def breakTarget (ctx : List LoopCtx) (l : Option String) : Nat := ((lookupLoop ctx l).map (·.endp)).getD 0xFFFF
+def contTarget (ctx : List LoopCtx) (l : Option String) : Nat := ((lookupLoop ctx l).map (·.begin)).getD 0xFFFF
+
+/-- the last statement of a branch in value position: an expression statement loses its `Pop`
+(`remove_last_pop`), after anything else a `Null` is emitted -/
+def valueOf (isExpr : Bool) (code : List Instr) : List Instr :=
+  if isExpr then code.dropLast else code ++ [.null]
+
+mutual
+/-- what `compile_statement` emits at byte position `pos` with `k` constants in the pool and
+the loop stack `ctx` -/
+def compileS (pos k : Nat) (ctx : List LoopCtx) : CStmt → List Instr
   | .letG i e => compile pos k e ++ [.defGlobal i]
   | .expr e => compile pos k e ++ [.pop]
-  | .block body => compileP pos k body
-  | .whileS c body =>
+  | .block body => compileP pos k ctx body
+  | .whileS lbl c body =>
     -- begin: c; JumpIfFalse end; body; Jump begin; end:
     let cc := compile pos k c
     let pb := pos + bytes cc + 3
-    let cb := compileP pb (k + (consts c).length) body
-    cc ++ [.jif (pb + bytes cb + 3)] ++ cb ++ [.jump pos]
-def compileP (pos k : Nat) : List CStmt → List Instr
+    let endp := pb + sizeP body + 3
+    cc ++ [.jif endp] ++ compileP pb (k + (consts c).length) (⟨lbl, pos, endp⟩ :: ctx) body ++ [.jump pos]
+  | .loopS lbl body =>
+    -- begin: body; Jump begin; end:
+    compileP pos k (⟨lbl, pos, pos + sizeP body + 3⟩ :: ctx) body ++ [.jump pos]
+  | .breakS l => [.jump (breakTarget ctx l)]
+  | .continueS l => [.jump (contTarget ctx l)]
+  | .ifS c thn els =>
+    -- c; JumpIfFalse else; thn (value); Jump end; else: els (value); end: Pop
+    let cc := compile pos k c
+    let pt := pos + bytes cc + 3
+    let ct := branchV pt (k + (consts c).length) ctx thn
+    let pe := pt + bytes ct + 3
+    let ce := branchV pe (k + (consts c).length + (constsP thn).length) ctx els
+    cc ++ [.jif pe] ++ ct ++ [.jump (pe + bytes ce)] ++ ce ++ [.pop]
+def compileP (pos k : Nat) (ctx : List LoopCtx) : List CStmt → List Instr
   | [] => []
   | s :: rest =>
-    let cs := compileS pos k s
-    cs ++ compileP (pos + bytes cs) (k + (constsS s).length) rest
+    let cs := compileS pos k ctx s
+    cs ++ compileP (pos + bytes cs) (k + (constsS s).length) ctx rest
+/-- a branch of an `if` expression (`compile_if_expression`): the block's statements, the last
+one in value position; the empty block is `Null` -/
+def branchV (pos k : Nat) (ctx : List LoopCtx) : List CStmt → List Instr
+  | [] => [.null]
+  | s :: rest =>
+    match rest with
+    | [] => valueOf s.isExprStmt (compileS pos k ctx s)
+    | _ :: _ =>
+      let cs := compileS pos k ctx s
+      cs ++ branchV (pos + bytes cs) (k + (constsS s).length) ctx rest
 end
+
+/-- the code of `if c { thn } else { els }` as an expression (without the statement's `Pop`) -/
+def ifV (pos k : Nat) (ctx : List LoopCtx) (c : CExpr) (thn els : List CStmt) : List Instr :=
+  let cc := compile pos k c
+  let pt := pos + bytes cc + 3
+  let ct := branchV pt (k + (consts c).length) ctx thn
+  let pe := pt + bytes ct + 3
+  let ce := branchV pe (k + (consts c).length + (constsP thn).length) ctx els
+  cc ++ [.jif pe] ++ ct ++ [.jump (pe + bytes ce)] ++ ce
+
+/-- closes the position / stack side goals of `Steps.to` and `codeAt.to` -/
+macro "posarith" : tactic =>
+  `(tactic| first
+    | omega
+    | (simp [bytes_append, bytes, Instr.size]; done)
+    | (simp [bytes_append, bytes, Instr.size]; omega))
+
+theorem branchV_single (pos k : Nat) (ctx : List LoopCtx) (s : CStmt) :
+    branchV pos k ctx [s] = valueOf s.isExprStmt (compileS pos k ctx s) := by rw [branchV]
+
+theorem branchV_cons2 (pos k : Nat) (ctx : List LoopCtx) (s s2 : CStmt) (rest : List CStmt) :
+    branchV pos k ctx (s :: s2 :: rest) =
+      compileS pos k ctx s ++ branchV (pos + bytes (compileS pos k ctx s)) (k + (constsS s).length) ctx (s2 :: rest) := by
+  rw [branchV]
+
+theorem sizeV_single (s : CStmt) : sizeV [s] = if s.isExprStmt then sizeS s - 1 else sizeS s + 1 := by rw [sizeV]
+
+theorem sizeV_cons2 (s s2 : CStmt) (rest : List CStmt) : sizeV (s :: s2 :: rest) = sizeS s + sizeV (s2 :: rest) := by rw [sizeV]
+
+theorem compileS_ifS (pos k : Nat) (ctx : List LoopCtx) (c : CExpr) (thn els : List CStmt) :
+    compileS pos k ctx (.ifS c thn els) = ifV pos k ctx c thn els ++ [.pop] := by
+  simp [compileS, ifV]
+
+theorem valueOf_expr (pos k : Nat) (ctx : List LoopCtx) (e : CExpr) :
+    valueOf (CStmt.expr e).isExprStmt (compileS pos k ctx (.expr e)) = compile pos k e := by
+  simp [valueOf, CStmt.isExprStmt, compileS]
+
+theorem valueOf_ifS (pos k : Nat) (ctx : List LoopCtx) (c : CExpr) (thn els : List CStmt) :
+    valueOf (CStmt.ifS c thn els).isExprStmt (compileS pos k ctx (.ifS c thn els)) = ifV pos k ctx c thn els := by
+  simp [valueOf, CStmt.isExprStmt, compileS_ifS]
+
+/-! ## code sizes -/
+
+/-- a statement that is not an expression statement, in value position: its code, then `Null` -/
+theorem valueOf_other (pos k : Nat) (ctx : List LoopCtx) (s : CStmt) (h : s.isExprStmt = false) :
+    valueOf s.isExprStmt (compileS pos k ctx s) = compileS pos k ctx s ++ [.null] := by
+  simp [valueOf, h]
+
+mutual
+theorem bytes_compileS (pos k : Nat) (ctx : List LoopCtx) : ∀ s : CStmt, bytes (compileS pos k ctx s) = sizeS s
+  | .letG i e => by simp [compileS, sizeS, bytes_append, bytes, Instr.size, bytes_compile]
+  | .expr e => by simp [compileS, sizeS, bytes_append, bytes, Instr.size, bytes_compile]
+  | .block body => by simpa [compileS, sizeS] using bytes_compileP pos k ctx body
+  | .whileS lbl c body => by
+    simp [compileS, sizeS, bytes_append, bytes, Instr.size, bytes_compile, bytes_compileP _ _ _ body]; omega
+  | .loopS lbl body => by
+    simp [compileS, sizeS, bytes_append, bytes, Instr.size, bytes_compileP _ _ _ body]
+  | .breakS l => by simp [compileS, sizeS, bytes, Instr.size]
+  | .continueS l => by simp [compileS, sizeS, bytes, Instr.size]
+  | .ifS c thn els => by
+    simp [compileS, sizeS, bytes_append, bytes, Instr.size, bytes_compile, bytes_branchV _ _ _ thn, bytes_branchV _ _ _ els]; omega
+theorem bytes_compileP (pos k : Nat) (ctx : List LoopCtx) : ∀ ss : List CStmt, bytes (compileP pos k ctx ss) = sizeP ss
+  | [] => by simp [compileP, sizeP, bytes]
+  | s :: rest => by simp [compileP, sizeP, bytes_append, bytes_compileS pos k ctx s, bytes_compileP _ _ _ rest]
+theorem bytes_branchV (pos k : Nat) (ctx : List LoopCtx) : ∀ ss : List CStmt, bytes (branchV pos k ctx ss) = sizeV ss
+  | [] => by simp [branchV, sizeV, bytes, Instr.size]
+  | [s] => by
+    have hs := bytes_compileS pos k ctx s
+    rw [branchV_single, sizeV_single]
+    cases s with
+    | expr e =>
+      rw [valueOf_expr]
+      simp [CStmt.isExprStmt, sizeS, bytes_compile]
+    | ifS c thn els =>
+      rw [valueOf_ifS]
+      rw [compileS_ifS] at hs
+      simp only [bytes_append, bytes, Instr.size] at hs
+      simp only [CStmt.isExprStmt, if_true]
+      omega
+    | letG i e => rw [valueOf_other _ _ _ _ rfl]; simp [CStmt.isExprStmt, bytes_append, bytes, Instr.size, hs]
+    | block b => rw [valueOf_other _ _ _ _ rfl]; simp [CStmt.isExprStmt, bytes_append, bytes, Instr.size, hs]
+    | whileS l c b => rw [valueOf_other _ _ _ _ rfl]; simp [CStmt.isExprStmt, bytes_append, bytes, Instr.size, hs]
+    | loopS l b => rw [valueOf_other _ _ _ _ rfl]; simp [CStmt.isExprStmt, bytes_append, bytes, Instr.size, hs]
+    | breakS l => rw [valueOf_other _ _ _ _ rfl]; simp [CStmt.isExprStmt, bytes_append, bytes, Instr.size, hs]
+    | continueS l => rw [valueOf_other _ _ _ _ rfl]; simp [CStmt.isExprStmt, bytes_append, bytes, Instr.size, hs]
+  | s :: s2 :: rest => by
+    rw [branchV_cons2, sizeV_cons2, bytes_append, bytes_compileS pos k ctx s, bytes_branchV _ _ _ (s2 :: rest)]
+end
+
+/-! ## where the machine is when a statement ends -/
+
+/-- the program counter after a statement that ends in flow `f`: the statement's end, or the
+end / the beginning of the loop the flow is addressed to -/
+def exitPc (ctx : List LoopCtx) (endPos : Nat) : Flow → Nat
+  | .normal => endPos
+  | .brk l => breakTarget ctx l
+  | .cont l => contTarget ctx l
+
+/-- the stack after a block in value position: its value is pushed when it ends normally -/
+def valStk (f : Flow) (v : Val) (stk : List Val) : List Val :=
+  match f with
+  | .normal => v :: stk
+  | _ => stk
 
 /-- the statement of correctness for one statement / a statement list -/
 def SoundS (fuel : Nat) : Prop :=
-  ∀ (s : CStmt) (C : List Instr) (K : List Val) (pos k : Nat) (stk g g' : List Val),
-    codeAt C pos (compileS pos k s) → poolAt K k (constsS s) → evalS fuel g s = some g' →
-    Steps C K ⟨pos, stk, g⟩ ⟨pos + bytes (compileS pos k s), stk, g'⟩
+  ∀ (s : CStmt) (C : List Instr) (K : List Val) (pos k : Nat) (ctx : List LoopCtx) (stk g g' : List Val) (f : Flow),
+    codeAt C pos (compileS pos k ctx s) → poolAt K k (constsS s) → evalS fuel g s = some (g', f) →
+    Steps C K ⟨pos, stk, g⟩ ⟨exitPc ctx (pos + bytes (compileS pos k ctx s)) f, stk, g'⟩
 
 def SoundP (fuel : Nat) : Prop :=
-  ∀ (ss : List CStmt) (C : List Instr) (K : List Val) (pos k : Nat) (stk g g' : List Val),
-    codeAt C pos (compileP pos k ss) → poolAt K k (constsP ss) → evalP fuel g ss = some g' →
-    Steps C K ⟨pos, stk, g⟩ ⟨pos + bytes (compileP pos k ss), stk, g'⟩
+  ∀ (ss : List CStmt) (C : List Instr) (K : List Val) (pos k : Nat) (ctx : List LoopCtx) (stk g g' : List Val) (f : Flow),
+    codeAt C pos (compileP pos k ctx ss) → poolAt K k (constsP ss) → evalP fuel g ss = some (g', f) →
+    Steps C K ⟨pos, stk, g⟩ ⟨exitPc ctx (pos + bytes (compileP pos k ctx ss)) f, stk, g'⟩
 
+/-- a block in value position (a branch of an `if`): ending normally it has pushed one value -/
+def SoundV (fuel : Nat) : Prop :=
+  ∀ (ss : List CStmt) (C : List Instr) (K : List Val) (pos k : Nat) (ctx : List LoopCtx) (stk g g' : List Val) (f : Flow),
+    codeAt C pos (branchV pos k ctx ss) → poolAt K k (constsP ss) → evalP fuel g ss = some (g', f) →
+    ∃ v, Steps C K ⟨pos, stk, g⟩ ⟨exitPc ctx (pos + bytes (branchV pos k ctx ss)) f, valStk f v stk, g'⟩
 
-theorem sound_zero : SoundS 0 ∧ SoundP 0 := by
-  constructor
-  · intro s C K pos k stk g g' _ _ he; simp [evalS] at he
-  · intro ss C K pos k stk g g' _ _ he; simp [evalP] at he
+/-- an `if` with statement blocks as an expression -/
+def SoundIfV (fuel : Nat) : Prop :=
+  ∀ (c : CExpr) (thn els : List CStmt) (C : List Instr) (K : List Val) (pos k : Nat) (ctx : List LoopCtx) (stk g g' : List Val) (f : Flow),
+    codeAt C pos (ifV pos k ctx c thn els) → poolAt K k (consts c ++ constsP thn ++ constsP els) →
+    evalS fuel g (.ifS c thn els) = some (g', f) →
+    ∃ v, Steps C K ⟨pos, stk, g⟩ ⟨exitPc ctx (pos + bytes (ifV pos k ctx c thn els)) f, valStk f v stk, g'⟩
+
+/-- closes the side goals of `Steps.to` that mention `exitPc` / `valStk` -/
+macro "exitarith" : tactic =>
+  `(tactic| first
+    | (simp [exitPc, valStk, bytes_append, bytes, Instr.size]; done)
+    | (simp [exitPc, valStk, bytes_append, bytes, Instr.size]; omega))
+
+theorem exitPc_ne_normal {ctx e1 e2 f} (h : f ≠ Flow.normal) : exitPc ctx e1 f = exitPc ctx e2 f := by
+  cases f <;> simp_all [exitPc]
+
+theorem valStk_ne_normal {f v stk} (h : f ≠ Flow.normal) : valStk f v stk = stk := by
+  cases f <;> simp_all [valStk]
+
+/-- a flow the loop `me` lets through is addressed to the same loop of the enclosing stack -/
+theorem exitPc_propagate {me : LoopCtx} {ctx e1 e2 f} (h : loopAct me.label f = .propagate) :
+    exitPc (me :: ctx) e1 f = exitPc ctx e2 f := by
+  cases f with
+  | normal => simp [loopAct] at h
+  | brk l =>
+    by_cases ht : targets me.label l = true
+    · simp [loopAct, ht] at h
+    · simp [exitPc, breakTarget, lookupLoop, ht]
+  | cont l =>
+    by_cases ht : targets me.label l = true
+    · simp [loopAct, ht] at h
+    · simp [exitPc, contTarget, lookupLoop, ht]
+
+/-- a flow that makes the loop `me` iterate again leaves the machine at the end of the body
+(normal) or at the loop's beginning (`continue`) -/
+theorem exitPc_again {me : LoopCtx} {ctx e f} (h : loopAct me.label f = .again) :
+    exitPc (me :: ctx) e f = e ∨ exitPc (me :: ctx) e f = me.begin := by
+  cases f with
+  | normal => left; rfl
+  | brk l => by_cases ht : targets me.label l = true <;> simp [loopAct, ht] at h
+  | cont l =>
+    by_cases ht : targets me.label l = true
+    · right; simp [exitPc, contTarget, lookupLoop, ht]
+    · simp [loopAct, ht] at h
+
+theorem exitPc_exit {me : LoopCtx} {ctx e f} (h : loopAct me.label f = .exit) :
+    exitPc (me :: ctx) e f = me.endp := by
+  cases f with
+  | normal => simp [loopAct] at h
+  | cont l => by_cases ht : targets me.label l = true <;> simp [loopAct, ht] at h
+  | brk l =>
+    by_cases ht : targets me.label l = true
+    · simp [exitPc, breakTarget, lookupLoop, ht]
+    · simp [loopAct, ht] at h
+
+theorem sound_zero : SoundS 0 ∧ SoundP 0 ∧ SoundV 0 ∧ SoundIfV 0 := by
+  refine ⟨?_, ?_, ?_, ?_⟩
+  · intro s C K pos k ctx stk g g' f _ _ he; simp [evalS] at he
+  · intro ss C K pos k ctx stk g g' f _ _ he; simp [evalP] at he
+  · intro ss C K pos k ctx stk g g' f _ _ he; simp [evalP] at he
+  · intro c t e C K pos k ctx stk g g' f _ _ he; simp [evalS] at he
 
 theorem soundP_succ (fuel : Nat) (hS : SoundS fuel) (hP : SoundP fuel) : SoundP (fuel + 1) := by
-  intro ss C K pos k stk g g' h hp he
+  intro ss C K pos k ctx stk g g' f h hp he
   cases ss with
   | nil =>
-    simp only [evalP, Option.some.injEq] at he
-    subst he
-    exact (Steps.refl _).to (by simp [compileP, bytes])
+    simp only [evalP, Option.some.injEq, Prod.mk.injEq] at he
+    obtain ⟨rfl, rfl⟩ := he
+    exact (Steps.refl _).to (by simp [compileP, bytes, exitPc])
   | cons s rest =>
     simp only [evalP] at he
     cases h1 : evalS fuel g s with
     | none => simp [h1] at he
-    | some g1 =>
-      simp only [h1] at he
+    | some r1 =>
+      obtain ⟨g1, f1⟩ := r1
       simp only [compileP] at h ⊢
       simp only [constsP] at hp
-      generalize hcs : compileS pos k s = cs at *
-      have hs := hS s C K pos k stk g g1 (hcs ▸ codeAt_left h) (poolAt_left hp) h1
+      generalize hcs : compileS pos k ctx s = cs at *
+      have hs := hS s C K pos k ctx stk g g1 f1 (hcs ▸ codeAt_left h) (poolAt_left hp) h1
       rw [hcs] at hs
-      have hr := hP rest C K (pos + bytes cs) (k + (constsS s).length) stk g1 g' (codeAt_right h) (poolAt_right hp) he
-      exact (hs.trans hr).to (by simp [bytes_append]; omega)
+      by_cases hn : f1 = .normal
+      · subst hn
+        simp only [h1] at he
+        have hr := hP rest C K (pos + bytes cs) (k + (constsS s).length) ctx stk g1 g' f (codeAt_right h) (poolAt_right hp) he
+        have hs' : Steps C K ⟨pos, stk, g⟩ ⟨pos + bytes cs, stk, g1⟩ := hs
+        refine (hs'.trans hr).to ?_
+        cases f <;> simp [exitPc, bytes_append, Nat.add_assoc]
+      · have he' : some (g1, f1) = some (g', f) := by
+          cases f1 <;> simp_all
+        simp only [Option.some.injEq, Prod.mk.injEq] at he'
+        obtain ⟨rfl, rfl⟩ := he'
+        exact hs.to (by rw [exitPc_ne_normal hn])
 
-theorem soundS_succ (fuel : Nat) (hS : SoundS fuel) (hP : SoundP fuel) : SoundS (fuel + 1) := by
-  intro s C K pos k stk g g' h hp he
+theorem soundIfV_succ (fuel : Nat) (hV : SoundV fuel) : SoundIfV (fuel + 1) := by
+  intro c thn els C K pos k ctx stk g g' f h hp he
+  simp only [evalS] at he
+  cases hec : eval g c with
+  | none => simp [hec] at he
+  | some rc =>
+    obtain ⟨vc, g1⟩ := rc
+    simp only [hec] at he
+    simp only [ifV] at h ⊢
+    generalize hcc : compile pos k c = cc at *
+    generalize hct : branchV (pos + bytes cc + 3) (k + (consts c).length) ctx thn = ct at *
+    generalize hce : branchV (pos + bytes cc + 3 + bytes ct + 3) (k + (consts c).length + (constsP thn).length) ctx els = ce at *
+    have hc := compile_correct c C K pos k stk g vc g1 (hcc ▸ codeAt_mid [] cc _ (by simpa using h)) (poolAt_left (poolAt_left hp)) hec
+    rw [hcc] at hc
+    have hj : codeAt C (pos + bytes cc) [Instr.jif (pos + bytes cc + 3 + bytes ct + 3)] :=
+      codeAt_mid cc [_] (ct ++ [.jump (pos + bytes cc + 3 + bytes ct + 3 + bytes ce)] ++ ce) (by simpa using h)
+    have htt : codeAt C (pos + bytes cc + 3) ct :=
+      (codeAt_right (codeAt_left (codeAt_left h))).to (by posarith)
+    have hm : codeAt C (pos + bytes cc + 3 + bytes ct) [Instr.jump (pos + bytes cc + 3 + bytes ct + 3 + bytes ce)] :=
+      (codeAt_right (codeAt_left h)).to (by posarith)
+    have hee : codeAt C (pos + bytes cc + 3 + bytes ct + 3) ce :=
+      (codeAt_right h).to (by posarith)
+    have hpt : poolAt K (k + (consts c).length) (constsP thn) := poolAt_right (poolAt_left hp)
+    have hpe : poolAt K (k + (consts c).length + (constsP thn).length) (constsP els) := by
+      have := poolAt_right hp
+      simpa [Nat.add_assoc] using this
+    have s0 := hc.trans (Steps.one (step_jif (stk := stk) (g := g1) (v := vc) (K := K) hj))
+    by_cases hf : vc.isFalsey = true
+    · simp only [hf, if_true] at he s0
+      obtain ⟨v, hb⟩ := hV els C K _ _ ctx stk g1 g' f (hce ▸ hee) hpe he
+      rw [hce] at hb
+      refine ⟨v, (s0.trans hb).to ?_⟩
+      cases f <;> exitarith
+    · simp only [hf, Bool.false_eq_true, if_false] at he s0
+      obtain ⟨v, hb⟩ := hV thn C K _ _ ctx stk g1 g' f (hct ▸ htt) hpt he
+      rw [hct] at hb
+      by_cases hn : f = .normal
+      · subst hn
+        have hb' : Steps C K ⟨pos + bytes cc + 3, stk, g1⟩ ⟨pos + bytes cc + 3 + bytes ct, v :: stk, g'⟩ := hb
+        refine ⟨v, ((s0.trans hb').trans (Steps.one (step_jump hm))).to ?_⟩
+        exitarith
+      · exact ⟨v, (s0.trans hb).to (by rw [exitPc_ne_normal hn])⟩
+
+theorem soundV_succ (fuel : Nat) (hS : SoundS fuel) (hV : SoundV fuel) (hI : SoundIfV fuel) : SoundV (fuel + 1) := by
+  intro ss C K pos k ctx stk g g' f h hp he
+  cases ss with
+  | nil =>
+    simp only [evalP, Option.some.injEq, Prod.mk.injEq] at he
+    obtain ⟨rfl, rfl⟩ := he
+    simp only [branchV] at h ⊢
+    exact ⟨.null, (Steps.one (step_null h)).to (by exitarith)⟩
+  | cons s rest =>
+    simp only [evalP] at he
+    cases h1 : evalS fuel g s with
+    | none => simp [h1] at he
+    | some r1 =>
+      obtain ⟨g1, f1⟩ := r1
+      simp only [constsP] at hp
+      cases rest with
+      | cons s2 rest2 =>
+        rw [branchV_cons2] at h ⊢
+        generalize hcs : compileS pos k ctx s = cs at *
+        have hs := hS s C K pos k ctx stk g g1 f1 (hcs ▸ codeAt_left h) (poolAt_left hp) h1
+        rw [hcs] at hs
+        by_cases hn : f1 = .normal
+        · subst hn
+          simp only [h1] at he
+          obtain ⟨v, hr⟩ := hV (s2 :: rest2) C K (pos + bytes cs) (k + (constsS s).length) ctx stk g1 g' f (codeAt_right h) (poolAt_right hp) he
+          have hs' : Steps C K ⟨pos, stk, g⟩ ⟨pos + bytes cs, stk, g1⟩ := hs
+          refine ⟨v, (hs'.trans hr).to ?_⟩
+          cases f <;> simp [exitPc, bytes_append, Nat.add_assoc]
+        · have he' : some (g1, f1) = some (g', f) := by
+            cases f1 <;> simp_all
+          simp only [Option.some.injEq, Prod.mk.injEq] at he'
+          obtain ⟨rfl, rfl⟩ := he'
+          exact ⟨.null, hs.to (by rw [exitPc_ne_normal hn, valStk_ne_normal hn])⟩
+      | nil =>
+        -- the last statement, in value position
+        have hfin : g' = g1 ∧ f = f1 := by
+          cases f1 with
+          | normal =>
+            simp only [h1] at he
+            cases fuel with
+            | zero => simp [evalS] at h1
+            | succ n => simp [evalP] at he; exact ⟨he.1.symm, he.2.symm⟩
+          | brk l => simp [h1] at he; exact ⟨he.1.symm, he.2.symm⟩
+          | cont l => simp [h1] at he; exact ⟨he.1.symm, he.2.symm⟩
+        obtain ⟨rfl, rfl⟩ := hfin
+        simp only [constsP, List.append_nil] at hp
+        rw [branchV_single] at h ⊢
+        by_cases hx : s.isExprStmt = true
+        · cases s <;> try (simp [CStmt.isExprStmt] at hx)
+          case expr e =>
+            rw [valueOf_expr] at h ⊢
+            cases fuel with
+            | zero => simp [evalS] at h1
+            | succ n =>
+              simp only [evalS] at h1
+              cases hee : eval g e with
+              | none => simp [hee] at h1
+              | some r =>
+                obtain ⟨v, g2⟩ := r
+                simp only [hee, Option.some.injEq, Prod.mk.injEq] at h1
+                obtain ⟨rfl, rfl⟩ := h1
+                exact ⟨v, (compile_correct e C K pos k stk g v _ h (by simpa [constsS] using hp) hee).to (by exitarith)⟩
+          case ifS c thn els =>
+            rw [valueOf_ifS] at h ⊢
+            exact hI c thn els C K pos k ctx stk g g' f h (by simpa [constsS] using hp) h1
+        · have hx' : s.isExprStmt = false := by simpa using hx
+          rw [valueOf_other _ _ _ _ hx'] at h ⊢
+          have hs := hS s C K pos k ctx stk g g' f (codeAt_left h) hp h1
+          refine ⟨.null, ?_⟩
+          by_cases hn : f = .normal
+          · subst hn
+            have hnull : codeAt C (pos + bytes (compileS pos k ctx s)) [Instr.null] := codeAt_right h
+            have hs' : Steps C K ⟨pos, stk, g⟩ ⟨pos + bytes (compileS pos k ctx s), stk, g'⟩ := hs
+            exact (hs'.trans (Steps.one (step_null hnull))).to (by exitarith)
+          · exact hs.to (by rw [exitPc_ne_normal hn, valStk_ne_normal hn])
+
+theorem soundS_succ (fuel : Nat) (hS : SoundS fuel) (hP : SoundP fuel) (hI : SoundIfV (fuel + 1)) : SoundS (fuel + 1) := by
+  intro s C K pos k ctx stk g g' f h hp he
   cases s with
   | letG i e =>
     simp only [evalS] at he
@@ -130,15 +563,15 @@ theorem soundS_succ (fuel : Nat) (hS : SoundS fuel) (hP : SoundP fuel) : SoundS 
       obtain ⟨v, g1⟩ := r
       simp only [hee] at he
       by_cases hi : i < g1.length
-      · simp only [hi, if_true, Option.some.injEq] at he
-        subst he
+      · simp only [hi, if_true, Option.some.injEq, Prod.mk.injEq] at he
+        obtain ⟨rfl, rfl⟩ := he
         simp only [compileS] at h ⊢
         generalize hce : compile pos k e = ce at *
         have h1 := compile_correct e C K pos k stk g v g1 (hce ▸ codeAt_mid [] ce _ (by simpa using h)) hp hee
         rw [hce] at h1
         have hs : codeAt C (pos + bytes ce) [Instr.defGlobal i] := codeAt_mid ce [_] [] (by simpa using h)
         exact (h1.trans (Steps.one (step_defGlobal hs hi))).to
-          (by simp [bytes_append, bytes, Instr.size]; omega)
+          (by exitarith)
       · simp [hi] at he
   | expr e =>
     simp only [evalS] at he
@@ -147,20 +580,74 @@ theorem soundS_succ (fuel : Nat) (hS : SoundS fuel) (hP : SoundP fuel) : SoundS 
     | none => simp [hee] at he
     | some r =>
       obtain ⟨v, g1⟩ := r
-      simp only [hee, Option.some.injEq] at he
-      subst he
+      simp only [hee, Option.some.injEq, Prod.mk.injEq] at he
+      obtain ⟨rfl, rfl⟩ := he
       simp only [compileS] at h ⊢
       generalize hce : compile pos k e = ce at *
       have h1 := compile_correct e C K pos k stk g v g1 (hce ▸ codeAt_mid [] ce _ (by simpa using h)) hp hee
       rw [hce] at h1
       have hpop : codeAt C (pos + bytes ce) [Instr.pop] := codeAt_mid ce [_] [] (by simpa using h)
-      exact (h1.trans (Steps.one (step_pop hpop))).to (by simp [bytes_append, bytes, Instr.size]; omega)
+      exact (h1.trans (Steps.one (step_pop hpop))).to (by exitarith)
   | block body =>
     simp only [evalS] at he
     simp only [constsS] at hp
     simp only [compileS] at h ⊢
-    exact hP body C K pos k stk g g' h hp he
-  | whileS c body =>
+    exact hP body C K pos k ctx stk g g' f h hp he
+  | breakS l =>
+    simp only [evalS, Option.some.injEq, Prod.mk.injEq] at he
+    obtain ⟨rfl, rfl⟩ := he
+    simp only [compileS] at h
+    exact (Steps.one (step_jump h)).to (by simp [exitPc])
+  | continueS l =>
+    simp only [evalS, Option.some.injEq, Prod.mk.injEq] at he
+    obtain ⟨rfl, rfl⟩ := he
+    simp only [compileS] at h
+    exact (Steps.one (step_jump h)).to (by simp [exitPc])
+  | ifS c thn els =>
+    rw [compileS_ifS] at h ⊢
+    obtain ⟨v, hv⟩ := hI c thn els C K pos k ctx stk g g' f (codeAt_left h) (by simpa [constsS] using hp) he
+    by_cases hn : f = .normal
+    · subst hn
+      have hpop : codeAt C (pos + bytes (ifV pos k ctx c thn els)) [Instr.pop] := codeAt_right h
+      have hv' : Steps C K ⟨pos, stk, g⟩ ⟨pos + bytes (ifV pos k ctx c thn els), v :: stk, g'⟩ := hv
+      exact (hv'.trans (Steps.one (step_pop hpop))).to (by exitarith)
+    · exact hv.to (by rw [exitPc_ne_normal hn, valStk_ne_normal hn])
+  | loopS lbl body =>
+    simp only [evalS] at he
+    simp only [constsS] at hp
+    have hloop := h
+    simp only [compileS] at h ⊢
+    generalize hme : (⟨lbl, pos, pos + sizeP body + 3⟩ : LoopCtx) = me at *
+    have hml : me.label = lbl := by rw [← hme]
+    have hmb : me.begin = pos := by rw [← hme]
+    have hmend : me.endp = pos + sizeP body + 3 := by rw [← hme]
+    generalize hcb : compileP pos k (me :: ctx) body = cb at *
+    have hsz : bytes cb = sizeP body := by rw [← hcb, bytes_compileP]
+    have hback : codeAt C (pos + bytes cb) [Instr.jump pos] := codeAt_right h
+    cases hb : evalP fuel g body with
+    | none => simp [hb] at he
+    | some r =>
+      obtain ⟨g2, f2⟩ := r
+      simp only [hb] at he
+      have h1 := hP body C K pos k (me :: ctx) stk g g2 f2 (hcb ▸ codeAt_left h) hp hb
+      rw [hcb] at h1
+      cases ha : loopAct lbl f2 with
+      | again =>
+        simp only [ha] at he
+        have h2 := hS (.loopS lbl body) C K pos k ctx stk g2 g' f hloop (by simpa [constsS] using hp) he
+        simp only [compileS, hme, hcb] at h2
+        rcases exitPc_again (ctx := ctx) (e := pos + bytes cb) (hml ▸ ha) with e | e
+        · exact (h1.to (by rw [e])).trans ((Steps.one (step_jump hback)).trans h2)
+        · exact (h1.to (by rw [e, hmb])).trans h2
+      | exit =>
+        simp only [ha, Option.some.injEq, Prod.mk.injEq] at he
+        obtain ⟨rfl, rfl⟩ := he
+        exact h1.to (by rw [exitPc_exit (hml ▸ ha), hmend]; simp [exitPc, bytes_append, bytes, Instr.size, hsz]; omega)
+      | propagate =>
+        simp only [ha, Option.some.injEq, Prod.mk.injEq] at he
+        obtain ⟨rfl, rfl⟩ := he
+        exact h1.to (by rw [exitPc_propagate (hml ▸ ha)])
+  | whileS lbl c body =>
     simp only [evalS] at he
     simp only [constsS] at hp
     cases hec : eval g c with
@@ -172,65 +659,103 @@ theorem soundS_succ (fuel : Nat) (hS : SoundS fuel) (hP : SoundP fuel) : SoundS 
       have hloop := h
       simp only [compileS] at h ⊢
       generalize hcc : compile pos k c = cc at *
-      generalize hcb : compileP (pos + bytes cc + 3) (k + (consts c).length) body = cb at *
+      generalize hme : (⟨lbl, pos, pos + bytes cc + 3 + sizeP body + 3⟩ : LoopCtx) = me at *
+      have hml : me.label = lbl := by rw [← hme]
+      have hmb : me.begin = pos := by rw [← hme]
+      have hmend : me.endp = pos + bytes cc + 3 + sizeP body + 3 := by rw [← hme]
+      generalize hcb : compileP (pos + bytes cc + 3) (k + (consts c).length) (me :: ctx) body = cb at *
+      have hsz : bytes cb = sizeP body := by rw [← hcb, bytes_compileP]
       have hc := compile_correct c C K pos k stk g vc g1 (hcc ▸ codeAt_mid [] cc _ (by simpa using h)) (poolAt_left hp) hec
       rw [hcc] at hc
-      have hj : codeAt C (pos + bytes cc) [Instr.jif (pos + bytes cc + 3 + bytes cb + 3)] :=
+      have hj : codeAt C (pos + bytes cc) [Instr.jif (pos + bytes cc + 3 + sizeP body + 3)] :=
         codeAt_mid cc [_] (cb ++ [.jump pos]) (by simpa using h)
-      have hbody : codeAt C (pos + bytes cc + 3) cb := by
-        have := codeAt_mid (cc ++ [.jif (pos + bytes cc + 3 + bytes cb + 3)]) cb [.jump pos] (by simpa using h)
-        simpa [bytes_append, bytes, Instr.size, Nat.add_assoc] using this
-      have hback : codeAt C (pos + bytes cc + 3 + bytes cb) [Instr.jump pos] := by
-        have := codeAt_mid (cc ++ [.jif (pos + bytes cc + 3 + bytes cb + 3)] ++ cb) [_] [] (by simpa using h)
-        simpa [bytes_append, bytes, Instr.size, Nat.add_assoc] using this
+      have hbody : codeAt C (pos + bytes cc + 3) cb :=
+        (codeAt_right (codeAt_left h)).to (by posarith)
+      have hback : codeAt C (pos + bytes cc + 3 + bytes cb) [Instr.jump pos] :=
+        (codeAt_right h).to (by posarith)
       refine hc.trans ((Steps.one (step_jif hj)).trans ?_)
       by_cases hf : vc.isFalsey = true
-      · simp only [hf, if_true, Option.some.injEq] at he ⊢
-        subst he
-        exact (Steps.refl _).to (by simp [bytes_append, bytes, Instr.size]; omega)
+      · simp only [hf, if_true, Option.some.injEq, Prod.mk.injEq] at he ⊢
+        obtain ⟨rfl, rfl⟩ := he
+        exact (Steps.refl _).to (by simp [exitPc, bytes_append, bytes, Instr.size, hsz]; omega)
       · simp only [hf, Bool.false_eq_true, if_false] at he ⊢
         cases hb : evalP fuel g1 body with
         | none => simp [hb] at he
-        | some g2 =>
+        | some r =>
+          obtain ⟨g2, f2⟩ := r
           simp only [hb] at he
-          have h1 := hP body C K (pos + bytes cc + 3) _ stk g1 g2 (hcb ▸ hbody) (poolAt_right hp) hb
+          have h1 := hP body C K (pos + bytes cc + 3) _ (me :: ctx) stk g1 g2 f2 (hcb ▸ hbody) (poolAt_right hp) hb
           rw [hcb] at h1
-          have h2 := hS (.whileS c body) C K pos k stk g2 g' hloop (by simpa [constsS] using hp) he
-          simp only [compileS, hcc, hcb] at h2
-          exact h1.trans ((Steps.one (step_jump hback)).trans h2)
+          cases ha : loopAct lbl f2 with
+          | again =>
+            simp only [ha] at he
+            have h2 := hS (.whileS lbl c body) C K pos k ctx stk g2 g' f hloop (by simpa [constsS] using hp) he
+            simp only [compileS, hcc, hme, hcb] at h2
+            rcases exitPc_again (ctx := ctx) (e := pos + bytes cc + 3 + bytes cb) (hml ▸ ha) with e | e
+            · exact (h1.to (by rw [e])).trans ((Steps.one (step_jump hback)).trans h2)
+            · exact (h1.to (by rw [e, hmb])).trans h2
+          | exit =>
+            simp only [ha, Option.some.injEq, Prod.mk.injEq] at he
+            obtain ⟨rfl, rfl⟩ := he
+            exact h1.to (by rw [exitPc_exit (hml ▸ ha), hmend]; simp [exitPc, bytes_append, bytes, Instr.size, hsz]; omega)
+          | propagate =>
+            simp only [ha, Option.some.injEq, Prod.mk.injEq] at he
+            obtain ⟨rfl, rfl⟩ := he
+            exact h1.to (by rw [exitPc_propagate (hml ▸ ha)])
 
-theorem sound_all : ∀ fuel, SoundS fuel ∧ SoundP fuel
+/-- **soundness of the statement compiler**, for every fuel: a statement / statement list
+placed anywhere, entered with any stack `stk` and loop stack `ctx`, takes the machine
+* to its own end when the reference evaluation ends normally,
+* to the end of the loop `ctx` resolves `l` to when it ends in `break l`,
+* to the beginning of that loop when it ends in `continue l`,
+with the globals of the reference evaluation and **the stack `stk` it started with**; a block
+in value position (a branch of an `if`) has pushed one value when it ends normally. -/
+theorem sound_all : ∀ fuel, SoundS fuel ∧ SoundP fuel ∧ SoundV fuel ∧ SoundIfV fuel
   | 0 => sound_zero
   | fuel+1 =>
     have ih := sound_all fuel
-    ⟨soundS_succ fuel ih.1 ih.2, soundP_succ fuel ih.1 ih.2⟩
+    have hI := soundIfV_succ fuel ih.2.2.1
+    ⟨soundS_succ fuel ih.1 ih.2.1 hI, soundP_succ fuel ih.1 ih.2.1, soundV_succ fuel ih.1 ih.2.2.1 ih.2.2.2, hI⟩
 
-/-- **statements**: the code of every statement — `let`, expression statement, block, `while`
-loop — runs from any stack back to the same stack, for every terminating run -/
-theorem compileS_correct (fuel : Nat) (s : CStmt) (C : List Instr) (K : List Val) (pos k : Nat) (stk g g' : List Val)
-    (h : codeAt C pos (compileS pos k s)) (hp : poolAt K k (constsS s)) (he : evalS fuel g s = some g') :
-    Steps C K ⟨pos, stk, g⟩ ⟨pos + bytes (compileS pos k s), stk, g'⟩ :=
-  (sound_all fuel).1 s C K pos k stk g g' h hp he
+/-- **statements**: the code of every statement — `let`, expression statement, block, `while`,
+`loop`, `break`, `continue`, statement-level `if` — runs from any stack back to the same
+stack, for every terminating run; the program counter is where the flow says -/
+theorem compileS_correct (fuel : Nat) (s : CStmt) (C : List Instr) (K : List Val) (pos k : Nat) (ctx : List LoopCtx)
+    (stk g g' : List Val) (f : Flow)
+    (h : codeAt C pos (compileS pos k ctx s)) (hp : poolAt K k (constsS s)) (he : evalS fuel g s = some (g', f)) :
+    Steps C K ⟨pos, stk, g⟩ ⟨exitPc ctx (pos + bytes (compileS pos k ctx s)) f, stk, g'⟩ :=
+  (sound_all fuel).1 s C K pos k ctx stk g g' f h hp he
 
 /-- **programs**: every statement sequence runs from a stack back to the same stack -/
-theorem compileP_correct (fuel : Nat) (ss : List CStmt) (C : List Instr) (K : List Val) (pos k : Nat) (stk g g' : List Val)
-    (h : codeAt C pos (compileP pos k ss)) (hp : poolAt K k (constsP ss)) (he : evalP fuel g ss = some g') :
-    Steps C K ⟨pos, stk, g⟩ ⟨pos + bytes (compileP pos k ss), stk, g'⟩ :=
-  (sound_all fuel).2 ss C K pos k stk g g' h hp he
+theorem compileP_correct (fuel : Nat) (ss : List CStmt) (C : List Instr) (K : List Val) (pos k : Nat) (ctx : List LoopCtx)
+    (stk g g' : List Val) (f : Flow)
+    (h : codeAt C pos (compileP pos k ctx ss)) (hp : poolAt K k (constsP ss)) (he : evalP fuel g ss = some (g', f)) :
+    Steps C K ⟨pos, stk, g⟩ ⟨exitPc ctx (pos + bytes (compileP pos k ctx ss)) f, stk, g'⟩ :=
+  (sound_all fuel).2.1 ss C K pos k ctx stk g g' f h hp he
 
-/-- whole program: code = the program, pool = its constants, empty stack -/
-theorem program_correct (fuel : Nat) (ss : List CStmt) (g g' : List Val) (he : evalP fuel g ss = some g') :
-    Steps (compileP 0 0 ss) (constsP ss) ⟨0, [], g⟩ ⟨bytes (compileP 0 0 ss), [], g'⟩ := by
-  have := compileP_correct fuel ss (compileP 0 0 ss) (constsP ss) 0 0 [] g g'
+/-- whole program: code = the program, pool = its constants, empty stack, no enclosing loop -/
+theorem program_correct (fuel : Nat) (ss : List CStmt) (g g' : List Val) (he : evalP fuel g ss = some (g', .normal)) :
+    Steps (compileP 0 0 [] ss) (constsP ss) ⟨0, [], g⟩ ⟨bytes (compileP 0 0 [] ss), [], g'⟩ := by
+  have := compileP_correct fuel ss (compileP 0 0 [] ss) (constsP ss) 0 0 [] [] g g' .normal
     ⟨[], [], by simp, rfl⟩ ⟨[], [], by simp, rfl⟩ he
-  simpa using this
+  simpa [exitPc] using this
 
-/-- a loop runs in constant stack: however many iterations the evaluation takes, the machine
-is back at the loop's entry stack when the loop is left -/
-theorem while_constant_stack (fuel : Nat) (c : CExpr) (body : List CStmt) (C : List Instr) (K : List Val) (pos k : Nat)
-    (stk g g' : List Val) (h : codeAt C pos (compileS pos k (.whileS c body))) (hp : poolAt K k (constsS (.whileS c body)))
-    (he : evalS fuel g (.whileS c body) = some g') :
+/-- a `while` loop runs in constant stack: however many iterations the evaluation takes, and
+however it is left (condition falsey, `break`, a `break`/`continue` addressed to an outer
+loop), the machine has the loop's entry stack when the loop is left -/
+theorem while_constant_stack (fuel : Nat) (lbl : Option String) (c : CExpr) (body : List CStmt) (C : List Instr) (K : List Val) (pos k : Nat)
+    (ctx : List LoopCtx) (stk g g' : List Val) (f : Flow)
+    (h : codeAt C pos (compileS pos k ctx (.whileS lbl c body))) (hp : poolAt K k (constsS (.whileS lbl c body)))
+    (he : evalS fuel g (.whileS lbl c body) = some (g', f)) :
     ∃ st', Steps C K ⟨pos, stk, g⟩ st' ∧ st'.stk = stk ∧ st'.g = g' :=
-  ⟨_, compileS_correct fuel _ C K pos k stk g g' h hp he, rfl, rfl⟩
+  ⟨_, compileS_correct fuel _ C K pos k ctx stk g g' f h hp he, rfl, rfl⟩
+
+/-- the same for `loop` -/
+theorem loop_constant_stack (fuel : Nat) (lbl : Option String) (body : List CStmt) (C : List Instr) (K : List Val) (pos k : Nat)
+    (ctx : List LoopCtx) (stk g g' : List Val) (f : Flow)
+    (h : codeAt C pos (compileS pos k ctx (.loopS lbl body))) (hp : poolAt K k (constsS (.loopS lbl body)))
+    (he : evalS fuel g (.loopS lbl body) = some (g', f)) :
+    ∃ st', Steps C K ⟨pos, stk, g⟩ st' ∧ st'.stk = stk ∧ st'.g = g' :=
+  ⟨_, compileS_correct fuel _ C K pos k ctx stk g g' f h hp he, rfl, rfl⟩
 
 end P2sh.Core
